@@ -312,6 +312,17 @@ pub(crate) fn protocol<P: Propagator>(
             }
         });
     }
+    #[cfg(not(kani))]
+    if std::env::var("VERIF_DEBUG").is_ok() {
+        eprintln!(
+            "[debug] propagate calls={} propagations={} ok={} pending={} root_conflict={}",
+            unsafe { PROPAGATE_CALLS },
+            unsafe { monitor::PROPAGATIONS },
+            outcome.ok,
+            outcome.pending,
+            outcome.root_conflict
+        );
+    }
     // lazily computed reasons are evaluated again in the final (later) state
     monitor::recheck_lazy(env.assignments);
     env.forget();
